@@ -3,8 +3,10 @@
    alphabet (identity, qubits, kind), all numbers of qubits and all fusion widths.
    [gteqn n] is trace equivalence where gates with disjoint supports commute and a special gate
    (callback) has all n qubits as support; [gteq] uses the plain qubit lists.            *)
-From Coq Require Import List Bool Arith Lia.
-From QV Require Import Base.Trace C07.Model C07.Proofs C07.ProofsFuse.
+From Coq Require Import List Bool Arith Lia ZArith.
+From QV Require Import Base.Mat Base.Zi C01.Model C01.Spec C01.Lib C01.ProofsMat C01.ProofsRun C01.ProofsDM
+  C01.ProofsQueue C01.Examples Base.Sem Base.SemPtrace Base.SemExamples.
+From QV Require Import Base.Trace C07.Model C07.Proofs C07.ProofsFuse C07.InstMat.
 Import ListNotations.
 
 (* ---- Base/Trace ---- *)
@@ -192,3 +194,96 @@ Theorem light_cone_certificate_sound : forall c S cone kept_ids,
   /\ incl S cone.
 Proof. exact lc_cert_sound. Qed.
 Print Assumptions light_cone_certificate_sound.
+
+(* ================================================================ matrix semantics (C07/InstMat.v) *)
+(* [mg] gives every abstract letter its matrix gate (C01/Model.gate); [mvalid K n mg supp g] = that
+   gate is well formed on n qubits (duplicate-free, in range, targets not among controls) and acts
+   only on qubits of supp g.  circ_op = ordered product of the gate operators (C01/Spec.v).
+   No commutation premise: it is Base/SemProps.gate_op_disjoint_commute. *)
+Theorem fuse_equiv_matrices :
+  forall (T : Type) (K : ops T), semiring K ->
+  forall (n : nat) (mg : Trace.gate -> C01.Model.gate (T:=T)) (c : list Trace.gate) (max_qubits : nat),
+    Forall (mvalid n mg (gsupp n)) c ->
+    circ_op K n (map mg (flatten (fuse_model n c max_qubits))) = circ_op K n (map mg c).
+Proof. intros T K HK n mg c k. exact (fuse_equiv_matrices_proof K HK n mg c k). Qed.
+Print Assumptions fuse_equiv_matrices.
+
+(* hence equal final state vectors for every initial state *)
+Theorem fuse_equiv_states :
+  forall (T : Type) (K : ops T), semiring K ->
+  forall (n : nat) (mg : Trace.gate -> C01.Model.gate (T:=T)) (c : list Trace.gate) (max_qubits : nat) (psi : vec T),
+    Forall (mvalid n mg (gsupp n)) c ->
+    mvmul K (circ_op K n (map mg (flatten (fuse_model n c max_qubits)))) psi = mvmul K (circ_op K n (map mg c)) psi.
+Proof. intros T K HK n mg c k psi H. now rewrite (fuse_equiv_matrices T K HK n mg c k H). Qed.
+Print Assumptions fuse_equiv_states.
+
+Definition ex_mg (g : Trace.gate) : C01.Model.gate (T:=Zi) :=
+  (false, [], gqs g, match gid g with 1 => sU | 2 => sA | _ => sB end).
+Definition ex_fuse_c : list Trace.gate :=
+  [mkGate 0 [0;1] KOrd; mkGate 1 [2] KOrd; mkGate 2 [0] KOrd; mkGate 3 [1;2] KOrd].
+Example fuse_equiv_matrices_hyps :
+  Forall (mvalid 3 ex_mg (gsupp 3)) ex_fuse_c
+  /\ (exists qs gs, In (IGroup qs gs) (fuse_model 3 ex_fuse_c 2))
+  /\ circ_op Ziops 3 (map ex_mg (flatten (fuse_model 3 ex_fuse_c 2))) = circ_op Ziops 3 (map ex_mg ex_fuse_c)
+  /\ map gid (flatten (fuse_model 3 ex_fuse_c 2)) <> map gid ex_fuse_c.
+Proof.
+  split; [|split; [|split]].
+  - unfold ex_fuse_c, mvalid, gate_wf, ex_mg. fin.
+  - vm_compute. eexists _, _. left. reflexivity.
+  - vm_compute. reflexivity.
+  - vm_compute. discriminate.
+Qed.
+
+(* Light cone, reduced density matrix on S (Base/SemPtrace.reduced = partial trace over the other
+   qubits), density matrices evolving by U rho U^+ (C01/Spec.sandwich).  No partial-trace premise:
+   it is Base/SemProps.ptrace_ignores_outside.  What is required of the DROPPED gates: their
+   operator is embed n qs U for an isometry U (embeds_unitary); every gate that is not in
+   controlled_by form with a unitary matrix qualifies (InstMat.plain_gate_embeds_unitary).
+   NOT covered (stated in the evidence): dropped gates in controlled_by form (operator cembed;
+   needs cembed n cs ts M = embed n (cs++ts) (controlled M)), and the last step of
+   Circuit.light_cone, running the re-indexed kept gates on |cone| qubits instead of n. *)
+Theorem light_cone_reduced_state_matrices :
+  forall (T : Type) (K : ops T) (cj : T -> T), semiring K -> conj_ok K cj ->
+  forall (n : nat) (mg : Trace.gate -> C01.Model.gate (T:=T)) (c : list Trace.gate) (S : list nat) (rho : mat T),
+    Forall (mvalid n mg gqs) c ->
+    (forall g, In g (lc_dropped c S) -> embeds_unitary K cj n mg g) ->
+    (forall q, In q S -> q < n) -> wf_mat n rho ->
+    reduced K n S (trun (dact K cj n mg) c rho) = reduced K n S (trun (dact K cj n mg) (snd (lc_sweep c S)) rho).
+Proof.
+  intros T K cj HK HC n mg c S rho. exact (light_cone_reduced_matrices_proof K cj HK n mg HC c S rho).
+Qed.
+Print Assumptions light_cone_reduced_state_matrices.
+
+Theorem plain_unitary_gates_qualify :
+  forall (T : Type) (K : ops T) (cj : T -> T) (n : nat) (mg : Trace.gate -> C01.Model.gate (T:=T)) g cs ts M,
+    mg g = (false, cs, ts, M) -> gate_wf n (mg g) ->
+    wf_mat (length (isort cs ++ ts)) M ->
+    mmul K (madj K cj (length (isort cs ++ ts)) M) M = eye K (2 ^ length (isort cs ++ ts)) ->
+    embeds_unitary K cj n mg g.
+Proof. intros T K cj n mg g cs ts M. exact (plain_gate_embeds_unitary K cj n mg g cs ts M). Qed.
+Print Assumptions plain_unitary_gates_qualify.
+
+Definition ex_lc_c : list Trace.gate := [mkGate 0 [0;1] KOrd; mkGate 1 [2] KOrd; mkGate 2 [0] KOrd].
+Example light_cone_reduced_state_matrices_hyps :
+  Forall (mvalid 3 ex_mg gqs) ex_lc_c
+  /\ lc_dropped ex_lc_c [0] = [mkGate 1 [2] KOrd]
+  /\ (forall g, In g (lc_dropped ex_lc_c [0]) -> embeds_unitary Ziops zi_conj 3 ex_mg g)
+  /\ wf_mat 3 sRho
+  /\ reduced Ziops 3 [0] (trun (dact Ziops zi_conj 3 ex_mg) ex_lc_c sRho)
+      = reduced Ziops 3 [0] (trun (dact Ziops zi_conj 3 ex_mg) (snd (lc_sweep ex_lc_c [0])) sRho)
+  /\ trun (dact Ziops zi_conj 3 ex_mg) ex_lc_c sRho
+      <> trun (dact Ziops zi_conj 3 ex_mg) (snd (lc_sweep ex_lc_c [0])) sRho.
+Proof.
+  split; [|split; [|split; [|split; [|split]]]].
+  - unfold ex_lc_c, mvalid, gate_wf, ex_mg. fin.
+  - reflexivity.
+  - intros g Hg. change (lc_dropped ex_lc_c [0]) with [mkGate 1 [2] KOrd] in Hg.
+    destruct Hg as [<-|[]].
+    apply (plain_gate_embeds_unitary Ziops zi_conj 3 ex_mg _ [] [2] sU); [reflexivity| | |].
+    + unfold gate_wf, ex_mg. fin.
+    + vm_compute. repeat constructor.
+    + vm_compute. reflexivity.
+  - unfold sRho. apply tab2_wf.
+  - vm_compute. reflexivity.
+  - vm_compute. discriminate.
+Qed.
